@@ -347,7 +347,7 @@ pub fn run(cfg: &RunCfg) -> i32 {
     return crate::replay_main::<Case>(cfg, path, check);
   }
   crate::replay_known::<Case>(&mut report, &known, check);
-  let total = cfg.budget(1_000, 12_000);
+  let total = cfg.budget(1_000, 60_000);
   let o = drive(cfg, "update-all", total, &known, strategy, interpret, check);
   report.absorb("update-all", o);
   cli::cleanup_work_root();
